@@ -511,6 +511,37 @@ func candidateOrigins(v ssa.Value) []ssa.Value {
 					return reflectOrigins(acc.base)
 				}
 			}
+			// sliceItems(got): a helper of the module that is handed one reflected list and returns the list of
+			// its elements (everything it returns originates in that parameter)
+			if h := an.StaticCallee(x); h != nil && an.InModule(h) && h.Blocks != nil && len(h.Params) == len(x.Call.Args) {
+				pi := -1
+				for i, prm := range h.Params {
+					if isReflectValue(prm.Type()) {
+						if pi >= 0 {
+							pi = -2
+						} else {
+							pi = i
+						}
+					}
+				}
+				if pi >= 0 {
+					all := len(an.Returns(h)) > 0
+					for _, ret := range an.Returns(h) {
+						if len(ret.Results) != 1 {
+							all = false
+							continue
+						}
+						for _, o := range candidateOrigins(ret.Results[0]) {
+							if o != ssa.Value(h.Params[pi]) {
+								all = false
+							}
+						}
+					}
+					if all {
+						return reflectOrigins(x.Call.Args[pi])
+					}
+				}
+			}
 		case *ssa.MakeSlice:
 			var out []ssa.Value
 			for _, b := range x.Parent().Blocks {
